@@ -170,12 +170,35 @@ Theorem C07_refusal_restores_live_teids : forall retries access draws aok dok ps
 Proof. exact c07_refused_restores. Qed.
 Print Assumptions C07_refusal_restores_live_teids.
 
-(* all histories of establishments / deletions over any number of associations sharing one
-   generator, all draw streams, all datapath answers: per association the live sessions' SEIDs are
-   pairwise distinct and non-zero; no TEID belongs to two live sessions (of any association);
-   every TEID of a live session is marked used, so Allocate cannot hand it out again
-   (C07_teid_fresh); the generator stays in the class of the TEID theorems *)
-Theorem C07_history_invariant : forall retries access (draws : nat -> stream) es w,
+(* all histories of establishments / deletions / modifications over any number of associations
+   sharing one generator, all draw streams, all datapath answers.  Invariant: per association the
+   live sessions' SEIDs are pairwise distinct and non-zero; no TEID belongs to two live sessions
+   (of any association); every TEID of a live session is marked used, so Allocate cannot hand it
+   out again (C07_teid_fresh); the generator stays in the class of the TEID theorems.
+
+   The full statement is FALSE of the code: a Session Modification whose Create PDR carries, in
+   one PDI, an F-TEID with CHOOSE and an F-TEID with an explicit TEID makes the session claim a
+   TEID it was never given (the handler sets the flag and the TEID but allocates nothing); when
+   that session ends, the TEID - possibly that of another live session - is released (finding F36). *)
+Theorem C07_history_invariant_refuted : exists retries access (draws : nat -> stream) es w,
+  ((offset (w_gen w) < MAXV /\ NoDup (used (w_gen w)) /\ Forall (fun o => o < MAXV) (used (w_gen w))) /\
+   NoDup (map (fun s => (s_conn s, s_seid s)) (w_sess w)) /\
+   Forall (fun s => s_seid s <> 0) (w_sess w) /\
+   NoDup (all_teids (w_sess w)) /\
+   incl (all_teids (w_sess w)) (live_ids (w_gen w))) /\
+  ~ (let w' := fst (ev_run retries access draws w es) in
+     (offset (w_gen w') < MAXV /\ NoDup (used (w_gen w')) /\ Forall (fun o => o < MAXV) (used (w_gen w'))) /\
+     NoDup (map (fun s => (s_conn s, s_seid s)) (w_sess w')) /\
+     Forall (fun s => s_seid s <> 0) (w_sess w') /\
+     NoDup (all_teids (w_sess w')) /\
+     incl (all_teids (w_sess w')) (live_ids (w_gen w'))).
+Proof. exact ev_run_inv_refuted. Qed.
+Print Assumptions C07_history_invariant_refuted.
+
+(* it holds for every history without that shape of modification (ev_claims = CHOOSE together
+   with a non-zero explicit TEID); establishments and deletions are unrestricted *)
+Theorem C07_history_invariant_partial : forall retries access (draws : nat -> stream) es w,
+  existsb ev_claims es = false ->
   (offset (w_gen w) < MAXV /\ NoDup (used (w_gen w)) /\ Forall (fun o => o < MAXV) (used (w_gen w))) /\
   NoDup (map (fun s => (s_conn s, s_seid s)) (w_sess w)) /\
   Forall (fun s => s_seid s <> 0) (w_sess w) /\
@@ -188,7 +211,7 @@ Theorem C07_history_invariant : forall retries access (draws : nat -> stream) es
   NoDup (all_teids (w_sess w')) /\
   incl (all_teids (w_sess w')) (live_ids (w_gen w')).
 Proof. exact ev_run_inv. Qed.
-Print Assumptions C07_history_invariant.
+Print Assumptions C07_history_invariant_partial.
 
 (* ---------------------------------------------------------------- non-vacuity *)
 (* wrap-around: cursor at the last offset 2^32-2 with offsets 2^32-2, 0 and 1 used: the ids are
@@ -242,6 +265,9 @@ Example C07_history_example :
   let r := ev_run MAX_RETRIES 3232235777 draws w0
      [EvEst 0 true true [CPdr 1 true true 0 0]; EvEst 1 true true [CPdr 1 true true 0 0];
       EvEst 1 true true [CPdr 1 true true 0 0]; EvDel 0 5; EvEst 0 true true [CPdr 1 true true 0 0]] in
+  existsb ev_claims [EvEst 0 true true [CPdr 1 true true 0 0]; EvEst 1 true true [CPdr 1 true true 0 0];
+      EvEst 1 true true [CPdr 1 true true 0 0]; EvDel 0 5; EvMod 1 5 true 0; EvMod 1 5 false 9;
+      EvEst 0 true true [CPdr 1 true true 0 0]] = false /\
   snd r = [Some (EAccepted 5 [(1, 4294967295, 3232235777)] [DPdr 5 1 4294967295 3232235777 true]);
            Some (EAccepted 5 [(1, 1, 3232235777)] [DPdr 5 1 1 3232235777 true]);
            Some (ERefused CAUSE_NO_RESOURCES None);
